@@ -1,4 +1,5 @@
 import Iavl.Lemmas.V2LogCorrect
+import Iavl.Generated.SrcC20Ok
 /-
   C20 — v2 persistence, the logical core (Model/V2Log.lean): which checkpoint a load starts from, which rows it
   replays, and which rows a deletion of old versions removes. What the SQLite layer does with these rows, the
@@ -16,6 +17,10 @@ theorem find_previous_is_greatest_checkpoint (vs : List Nat) (hs : vs.Pairwise (
     (findPrevious vs version = none ↔ ∀ d ∈ vs, version < d) ∧
     (∀ c, findPrevious vs version = some c ↔ c ∈ vs ∧ c ≤ version ∧ ∀ d ∈ vs, d ≤ version → d ≤ c) :=
   ⟨(findPrevious_spec vs hs version).1, fun c => findPrevious_eq_some_iff vs hs version c⟩
+
+/-- every `VersionRange` built by `Add` calls (failed ones refused) is strictly ascending: the hypothesis of the
+    two search theorems is met by every range the library can hold -/
+theorem version_range_always_sorted (adds : List Nat) : (rangeOf adds).Pairwise (· < ·) := rangeOf_sorted adds
 
 /-- `VersionRange.Find` (the shard lookup of `getShard`) returns the least checkpoint not below the version,
     and -1 exactly when the version lies beyond the last one -/
